@@ -4,7 +4,7 @@ LEVEL = "model_checking"
 TECHNIQUE = ("CBMC bounded symbolic execution of the real event.c/watch.c/evmap.c entry points on a constructed, locked "
              "event_base; lock monitor (counting lock, owner, recursion flag) installed as the evthread callbacks; "
              "solver-chosen allocation faults through event.c's mm hooks and refusing back-end/signal/pipe stubs")
-UNITS = ["event.c", "watch.c", "evmap.c", "evthread-internal.h", "buffer.c", "listener.c"]
+UNITS = ["event.c", "watch.c", "evmap.c", "evthread-internal.h", "buffer.c", "listener.c", "bufferevent.c", "bufferevent_sock.c"]
 FUNCTIONS = ["event_add", "event_del", "event_del_block", "event_del_noblock", "event_active", "event_assign", "event_base_set",
              "event_new", "event_free", "event_base_once", "event_priority_set", "event_remove_timer", "event_base_loopbreak",
              "event_base_loopcontinue", "event_base_loopexit", "event_base_loop", "event_base_gettimeofday_cached",
@@ -22,6 +22,12 @@ FUNCTIONS = ["event_add", "event_del", "event_del_block", "event_del_noblock", "
              "evbuffer_peek", "evbuffer_ptr_set", "evbuffer_freeze", "evbuffer_unfreeze", "evbuffer_get_length", "evbuffer_get_contiguous_space",
              "evbuffer_set_max_read", "evbuffer_set_flags", "evbuffer_add_cb", "evbuffer_remove_cb", "evbuffer_remove_cb_entry", "evbuffer_cb_set_flags",
              "evbuffer_free", "evbuffer_new", "evbuffer_enable_locking", "evbuffer_defer_callbacks", "evbuffer_add_iovec",
+             "bufferevent_socket_new", "bufferevent_free", "bufferevent_write", "bufferevent_write_buffer", "bufferevent_read", "bufferevent_read_buffer",
+             "bufferevent_enable", "bufferevent_disable", "bufferevent_get_enabled", "bufferevent_setwatermark", "bufferevent_getwatermark",
+             "bufferevent_set_timeouts", "bufferevent_settimeout", "bufferevent_setcb", "bufferevent_getcb", "bufferevent_flush", "bufferevent_trigger",
+             "bufferevent_trigger_event", "bufferevent_priority_set", "bufferevent_get_priority", "bufferevent_setfd", "bufferevent_getfd",
+             "bufferevent_incref", "bufferevent_decref", "bufferevent_run_deferred_callbacks_locked", "bufferevent_run_deferred_callbacks_unlocked",
+             "bufferevent_finalize_cb_", "bufferevent_decref_and_unlock_",
              "evconnlistener_new", "evconnlistener_free", "evconnlistener_enable", "evconnlistener_disable", "evconnlistener_get_fd",
              "evconnlistener_get_base", "evconnlistener_set_cb", "evconnlistener_set_error_cb", "listener_read_cb"]
 BOUNDS = ("event.c/watch.c: one API call per obligation on a base with 2 priorities holding a pending timer, a persistent read event and the target "
@@ -30,8 +36,11 @@ BOUNDS = ("event.c/watch.c: one API call per obligation on a base with 2 priorit
           "data arguments symbolic, fault vector / timeout / variant solver-chosen per unmerged scenario. buffer.c: one call on a locked two-chain "
           "evbuffer (25 bytes) + a second locked evbuffer, sizes {0,3,16,30}, k-th allocation of the call fails for k in {none,1,2,3}. "
           "listener.c: one THREADSAFE listener; creation with failing allocations; accept pass with 0-2 connections, EAGAIN or hard error "
-          "(with/without error callback), accept callback disabling/freeing/re-enabling the listener")
-OUT = ("bufferevent*.c, evdns.c, http.c entry points (lock balance there is asserted by the harnesses of those units' own properties through "
+          "(with/without error callback), accept callback disabling/freeing/re-enabling the listener. bufferevent: one THREADSAFE socket "
+          "bufferevent (plain / deferred / deferred+unlocked callbacks), creation with the k-th allocation failing (k<=4), 1-4 calls with the "
+          "k-th allocation failing (k<=2) and the back end refusing or not, free, two loop passes")
+OUT = ("bufferevent_pair/filter/openssl, rate-limit groups, bufferevent_socket_connect*, socket I/O callbacks (bufferevent_readcb/writecb never "
+       "fire here), evdns.c, http.c entry points (lock balance there is asserted by the harnesses of those units' own properties through "
        "VP_ASSERT_NO_LOCKS, not by a dedicated family); evbuffer_search_eol/evbuffer_readln (no verdict within 400 s), evbuffer_add_file/"
        "evbuffer_read/evbuffer_write (descriptors; C15/C16), evbuffer_add_printf (no vsnprintf model); evconnlistener_new_bind (sockets); "
        "event_reinit; event_base_get_running_event outside a callback (documented undefined); histories of more than one call before the "
@@ -156,10 +165,48 @@ def _obl(op, act="NONE", **kw):
     if _T: d["timeout"] = _T
     return d
 
+EOPS = ["NEW_FREE", "WRITE", "READ", "ENABLE_DISABLE", "WATERMARK", "TIMEOUTS", "SETCB", "FLUSH", "TRIGGER", "PRIORITY", "FD", "REF", "GETTERS", "WRITE_BUFFER"]
+EOPTS = {"plain": "0", "defer": "BEV_OPT_DEFER_CALLBACKS", "defer_unlock": "(BEV_OPT_DEFER_CALLBACKS|BEV_OPT_UNLOCK_CALLBACKS)"}
+def _obe(op, opts="plain", **kw):
+    P = [("event_base_loop.function_pointer_call.7", "c08e_dispatch"),
+         ("event_persist_closure.function_pointer_call.2", "bufferevent_readcb,bufferevent_writecb"),
+         ("event_process_active_single_queue.function_pointer_call.2", "bufferevent_readcb,bufferevent_writecb"),
+         ("event_process_active_single_queue.function_pointer_call.4", "bufferevent_run_deferred_callbacks_locked,bufferevent_run_deferred_callbacks_unlocked,evbuffer_deferred_callback"),
+         ("event_process_active_single_queue.function_pointer_call.8", "bufferevent_finalize_cb_"),
+         ("event_base_cancel_single_callback_.function_pointer_call.4", "bufferevent_finalize_cb_"),
+         ("evbuffer_run_callbacks.function_pointer_call.2", "bufferevent_socket_outbuf_cb,bufferevent_inbuf_wm_cb"),
+         ("bufferevent_run_readcb_.function_pointer_call.1", "readcb"), ("bufferevent_run_writecb_.function_pointer_call.1", "writecb"),
+         ("bufferevent_run_eventcb_.function_pointer_call.1", "eventcb"),
+         ("bufferevent_run_deferred_callbacks_locked.function_pointer_call.2", "eventcb"), ("bufferevent_run_deferred_callbacks_locked.function_pointer_call.3", "readcb"),
+         ("bufferevent_run_deferred_callbacks_locked.function_pointer_call.4", "writecb"), ("bufferevent_run_deferred_callbacks_locked.function_pointer_call.5", "eventcb"),
+         ("bufferevent_run_deferred_callbacks_unlocked.function_pointer_call.3", "eventcb"), ("bufferevent_run_deferred_callbacks_unlocked.function_pointer_call.6", "readcb"),
+         ("bufferevent_run_deferred_callbacks_unlocked.function_pointer_call.9", "writecb"), ("bufferevent_run_deferred_callbacks_unlocked.function_pointer_call.12", "eventcb"),
+         ("evmap_io_add_.function_pointer_call.1", "vp_be_add"), ("evmap_io_del_.function_pointer_call.1", "vp_be_del"),
+         ("evmap_signal_add_.function_pointer_call.1", "vp_sig_add"), ("evmap_signal_del_.function_pointer_call.1", "vp_sig_del"),
+         ("event_base_free_.function_pointer_call.1", "vp_be_dealloc"), ("evthread_notify_base.function_pointer_call.1", "vp_notify_fn"),
+         ("event_mm_malloc_.function_pointer_call.1", "c08e_malloc"), ("event_mm_calloc_.function_pointer_call.1", "c08e_malloc"),
+         ("event_mm_realloc_.function_pointer_call.1", "c08e_realloc"), ("event_mm_free_.function_pointer_call.1", "c08e_free"),
+         ("vp_base_new_ops.function_pointer_call.1", "vp_be_init"),
+         ("evmap_io_foreach_fd.function_pointer_call.1", "evmap_io_delete_all_iter_fn"),
+         ("evmap_signal_foreach_signal.function_pointer_call.1", "evmap_signal_delete_all_iter_fn")]
+    pins = []
+    for lab, tg in P: pins += ["--restrict-function-pointer", "%s/%s" % (lab, tg)]
+    d = dict(name="bufferevent_%s_%s" % (op.lower(), opts), harness="C08_bufferevent_api.c", entry="harness_bufferevent_api", sources=[],
+             defines=["C08E_OP=%d" % EOPS.index(op), "C08E_OPTS=%s" % EOPTS[opts], "LIBEVENT_VERIF_MIN_BUFFER_SIZE=64"], unwind=10,
+             unwindset=["evmap_io_foreach_fd.0:34", "evmap_signal_foreach_signal.0:34", "evmap_io_clear_.0:34", "evmap_signal_clear_.0:34",
+                        "evbuffer_chain_free:2", "evbuffer_decref_and_unlock_:2", "evbuffer_file_segment_free:1"],
+             instrument=[pins], cbmc=["--object-bits", "10", "--no-standard-checks"], timeout=900, mem_gb=6,
+             desc="bufferevent.c/bufferevent_sock.c: %s on a THREADSAFE socket bufferevent (%s): lock balance (bufferevent lock + base lock), allocation/back-end faults" % (op, opts))
+    d.update(kw)
+    if _T: d["timeout"] = _T
+    return d
+
 EVENT_OPS = ["ADD", "DEL", "DEL_BLOCK", "DEL_NOBLOCK", "ACTIVE", "ACTIVE_LATER", "PRIORITY_SET", "REMOVE_TIMER", "PENDING", "FINALIZE", "BASE_SET"]
 NO_LOOP_CTX = ("BASE_FREE", "PRIORITY_INIT")   # documented as illegal while the loop runs
 
 def obligations(tier):
+    if os.environ.get("C08E_PROBE"):
+        return [_obe(*x.split(":")) for x in os.environ["C08E_PROBE"].split(",")]
     if os.environ.get("C08L_PROBE"):
         return [_obl(*x.split(":")) for x in os.environ["C08L_PROBE"].split(",")]
     if os.environ.get("C08B_PROBE"):
@@ -183,6 +230,9 @@ def obligations(tier):
     # buffer.c and listener.c entry points (lock balance only; their functional properties are C12..C16 / C44)
     for op in BOPS:
         if op not in BSKIP: obs.append(_obb(op))
+    for op in EOPS:
+        for opts in (("plain",) if tier == "quick" and op not in ("TRIGGER", "WRITE", "NEW_FREE") else ("plain", "defer", "defer_unlock")):
+            obs.append(_obe(op, opts))
     for op in LOPS: obs.append(_obl(op))
     for act in LACTS[1:]: obs.append(_obl("ACCEPT", act))
     if tier == "quick":
